@@ -7,6 +7,7 @@
 package mc
 
 import (
+	"bytes"
 	"encoding/json"
 	"fmt"
 	"os"
@@ -74,6 +75,22 @@ type Failure struct {
 	Expected string          `json:"expected,omitempty"`
 	Observed string          `json:"observed,omitempty"`
 	Detail   string          `json:"detail,omitempty"`
+	// At is where the worker was when the case failed (set by Fail).
+	At *HistInfo `json:"at,omitempty"`
+	// Hist is set by the parent when the case passes on its own in a fresh
+	// process but fails, every time, after the cases that preceded it in its
+	// worker: replay then re-runs that prefix of the worker's enumeration.
+	Hist *HistInfo `json:"history,omitempty"`
+}
+
+// HistInfo identifies a prefix of one worker's enumeration.
+type HistInfo struct {
+	Shard   int    `json:"shard"`
+	NShards int    `json:"nshards"`
+	Resume  int64  `json:"resume"`
+	UpTo    int64  `json:"upto"`
+	Tier    string `json:"tier"`
+	Seed    int64  `json:"seed"`
 }
 
 // Result is what one worker (or a merge of workers) reports.
@@ -107,6 +124,7 @@ type Ctx struct {
 	Shard   int
 	NShards int
 	Resume  int64 // cases with index < Resume were already done by a previous incarnation
+	UpTo    int64 // >= 0: cases with a larger index are skipped (prefix replay of a history-dependent failure)
 	Replay  bool
 
 	// Describe, if set, maps a case index published with CaseIdx to its
@@ -128,6 +146,9 @@ type Ctx struct {
 // Mine reports whether case index i belongs to this worker (and was not
 // completed by an earlier incarnation of it).
 func (c *Ctx) Mine(i int64) bool {
+	if c.UpTo >= 0 && i > c.UpTo {
+		return false
+	}
 	return i >= c.Resume && int(i%int64(c.NShards)) == c.Shard
 }
 
@@ -197,6 +218,9 @@ func (c *Ctx) WantSample() bool { return len(c.res.Samples) < 4 }
 func (c *Ctx) Fail(f Failure) {
 	c.mu.Lock()
 	defer c.mu.Unlock()
+	if !c.Replay && f.At == nil {
+		f.At = &HistInfo{Shard: c.Shard, NShards: c.NShards, Resume: c.Resume, UpTo: c.curIdx.Load(), Tier: c.Tier, Seed: c.Seed}
+	}
 	c.res.FailureCount[f.Sig]++
 	k := f.Sig + "\x00" + f.Bucket
 	if f.Bucket != "" {
@@ -275,8 +299,8 @@ const (
 )
 
 // RunWorker executes one shard in this process and writes its Result to out.
-func RunWorker(ch *Check, tier string, seed int64, shard, nshards int, resume int64, out string) {
-	c := &Ctx{Tier: tier, Seed: seed, Shard: shard, NShards: nshards, Resume: resume, res: newResult(), maxKeep: 3, keepSig: map[string]int{}}
+func RunWorker(ch *Check, tier string, seed int64, shard, nshards int, resume, upto int64, out string) {
+	c := &Ctx{Tier: tier, Seed: seed, Shard: shard, NShards: nshards, Resume: resume, UpTo: upto, res: newResult(), maxKeep: 3, keepSig: map[string]int{}}
 	if ch.Budget != nil {
 		c.deadline = time.Now().Add(ch.Budget(tier))
 	}
@@ -346,7 +370,10 @@ func RunReplay(ch *Check, tier string, file string) int {
 		fmt.Println("replay: bad file", err)
 		return 2
 	}
-	c := &Ctx{Tier: tier, NShards: 1, Replay: true, res: newResult(), maxKeep: 10, keepSig: map[string]int{}}
+	if f.Hist != nil {
+		return runHistReplay(ch, &f)
+	}
+	c := &Ctx{Tier: tier, NShards: 1, UpTo: -1, Replay: true, res: newResult(), maxKeep: 10, keepSig: map[string]int{}}
 	done := make(chan struct{})
 	go func() {
 		defer close(done)
@@ -379,4 +406,47 @@ func RunAux(id, arg string) (string, error) {
 	cmd.Stderr = os.Stderr
 	out, err := cmd.Output()
 	return string(out), err
+}
+
+// SameCase compares two case descriptors modulo JSON white space.
+func SameCase(a, b json.RawMessage) bool {
+	var x, y bytes.Buffer
+	if json.Compact(&x, a) != nil || json.Compact(&y, b) != nil {
+		return string(a) == string(b)
+	}
+	return x.String() == y.String()
+}
+
+// runHistReplay re-runs the recorded prefix of one worker's enumeration in this
+// process and reports whether the recorded case fails again at its end.
+func runHistReplay(ch *Check, f *Failure) int {
+	h := f.Hist
+	c := &Ctx{Tier: h.Tier, Seed: h.Seed, Shard: h.Shard, NShards: h.NShards, Resume: h.Resume, UpTo: h.UpTo, res: newResult(), maxKeep: 3, keepSig: map[string]int{}}
+	limit := 30 * time.Minute
+	if ch.Budget != nil {
+		c.deadline = time.Now().Add(ch.Budget(h.Tier))
+		limit = ch.Budget(h.Tier) + 2*time.Minute
+	}
+	done := make(chan struct{})
+	go func() {
+		defer close(done)
+		defer func() { recover() }()
+		ch.Run(c)
+	}()
+	select {
+	case <-done:
+	case <-time.After(limit):
+		fmt.Printf("REPLAY property=%s result=HANG (history replay did not finish)\n", ch.ID)
+		return 1
+	}
+	c.mu.Lock()
+	defer c.mu.Unlock()
+	for _, x := range c.res.Failures {
+		if x.Kind == f.Kind && SameCase(x.Case, f.Case) {
+			fmt.Printf("REPLAY property=%s result=FAIL (after the preceding cases of worker %d/%d) kind=%s sig=%q expected=%s observed=%s\n", ch.ID, h.Shard, h.NShards, x.Kind, x.Sig, x.Expected, x.Observed)
+			return 1
+		}
+	}
+	fmt.Printf("REPLAY property=%s result=PASS\n", ch.ID)
+	return 0
 }
